@@ -42,7 +42,7 @@ type histCase struct {
 	Fault int `json:"fault"`
 }
 
-var mapFree = []string{"Simple", "Empty", "BigStrings", "Widths", "Registered", "Skips", "Embeds", "ReuseTwice", "SubOdd"}
+var mapFree = []string{"Simple", "Empty", "BigStrings", "Widths", "Registered", "Skips", "Embeds", "ReuseTwice", "SubOdd", "WideRecord", "WideRecord", "EmbedMid"}
 
 func drawHistCase(t *rapid.T, mapFreeOnly bool) histCase {
 	var c histCase
@@ -61,14 +61,31 @@ func drawHistCase(t *rapid.T, mapFreeOnly bool) histCase {
 	}
 	ts := cat.Get(c.Cat).Spec
 	c.Compression = drawCompression(t)
-	c.BlockSize = []int{0, 1, 7, 64, 300, 1000, 1000000}[gen.Uniform(t, "blocksize", 7)]
+	c.BlockSize = []int{0, 1, 7, 64, 300, 1000, 1000000, 250, 4070, 4090}[gen.Uniform(t, "blocksize", 10)]
 	n := gen.UniformRange(t, "nops", 1, 30)
 	if thorough() {
 		n = gen.UniformRange(t, "nops", 1, 60)
 	}
+	if c.BlockSize >= 4000 && c.BlockSize < 5000 {
+		// enough large records to fill several blocks of about 4 KiB (a common buffer size)
+		c.Cat = "BigStrings"
+		ts = cat.Get(c.Cat).Spec
+		n = gen.UniformRange(t, "nopsBig", 30, 70)
+	}
 	for i := 0; i < n; i++ {
 		if gen.Uniform(t, "op", 4) == 0 {
 			c.Ops = append(c.Ops, histOp{Flush: true})
+		} else if c.BlockSize >= 4000 && c.BlockSize < 5000 {
+			// records of 100-800 bytes
+			mk := func(label string) spec.ValueSpec {
+				n := gen.UniformRange(t, label, 50, 400)
+				b := make([]byte, n)
+				for j := range b {
+					b[j] = byte('a' + (i*31+j*7)%26)
+				}
+				return spec.ValueSpec{S: b}
+			}
+			c.Ops = append(c.Ops, histOp{Value: spec.ValueSpec{Fields: []spec.ValueSpec{mk("klen"), mk("vlen")}}})
 		} else {
 			c.Ops = append(c.Ops, histOp{Value: gen.Value(t, ts, gen.ValueOpts{MaxElems: 3})})
 		}
@@ -81,7 +98,7 @@ func drawHistCase(t *rapid.T, mapFreeOnly bool) histCase {
 // C09
 
 const c09Rule = "rapid draws of histories over the real generic Encoder[T] (catalogue types incl. a zero-byte record and one with large strings): 1-30 (thorough 1-60) steps of encode(value)/flush, " +
-	"block size in {0,1,7,64,300,1000,1e6}, all codecs; model = records pending since the last block; after EVERY call the bytes newly appended to the sink are parsed by the reference reader: " +
+	"block size in {0,1,7,64,250,300,1000,4070,4090,1e6}, all codecs; model = records pending since the last block; after EVERY call the bytes newly appended to the sink are parsed by the reference reader: " +
 	"nothing, or exactly one well-formed block whose count = |pending|, whose payload decodes (exact fit) to the pending records in order and whose sync is the header's; never count 0; " +
 	"a block must appear in the call in which the cumulative encoded size (from the decoded payload spans) reaches the block size and in every flush with records pending; flush twice appends nothing; " +
 	"non-trivial = history with >=1 size-triggered block, >=1 flush with pending records and >=1 flush with none; distinct by case JSON hash"
